@@ -340,6 +340,9 @@ pub fn start_block(lay: &Layouts, len: usize, types: &str, teams: bool, fill: u6
 			put(&mut raw, f.offset, &b);
 		}
 	}
+	// presence of the optional fields is a matter of the block LENGTH: every fourth filling declares a version older (or newer)
+	// than the one that introduced the layout
+	let ver = if fill % 4 == 3 { [(0u8, 1u8), (1, 0), (2, 0), (3, 7), (3, 16), (9, 9)][rng.below(6)] } else { (ver.0, ver.1) };
 	put(&mut raw, lay.start.field("slippi.version.0").offset, &[ver.0]);
 	put(&mut raw, lay.start.field("slippi.version.1").offset, &[ver.1]);
 	let t = [1u8, 1, 2, 0x80, 0xFF][rng.below(5)];
